@@ -28,6 +28,8 @@ def expr_src(x):
         return "%s == '%s'" % (name_src(x["n"]), x["c"])
     if k == "ne":
         return "%s != '%s'" % (name_src(x["n"]), x["c"])
+    if k == "intpos":
+        return "int(%s) > 0" % name_src(x["n"])          # raises for a deleted entity / missing attribute / non-number
     if k == "and":
         return "(%s) and (%s)" % (paren(x["l"]), paren(x["r"]))
     if k == "or":
